@@ -2438,6 +2438,11 @@ func compDefineX(sc *scope, n *node) error {
 		} else {
 			index = sc.add(t)
 			sc.sym[id] = &symbol{index: index, kind: varSym, typ: t}
+			if sc.global {
+				// A package variable, as the ones declared from single values.
+				sc.sym[id].global = true
+				sc.sym[id].node = n
+			}
 		}
 		n.child[i].typ = t
 		n.child[i].findex = index
